@@ -23,6 +23,22 @@ pub const CRYSTALS: [CrystalType; 11] = [
   CrystalType::AgGaS2_1,
 ];
 
+/// a positive-uniaxial expression crystal (rutile-like TiO2, n_e > n_o): the 'Ordinary' (slow) wave is the
+/// direction-dependent one, unlike in every built-in uniaxial crystal
+pub fn rutile_expr() -> CrystalType {
+  CrystalType::from_string(
+    r#"{ "no": "sqrt(5.913+0.2441/(l^2-0.0803))", "ne": "sqrt(7.197+0.3322/(l^2-0.0843))" }"#,
+  )
+  .expect("expression crystal")
+}
+
+/// the 11 built-in crystals plus the expression crystal
+pub fn all_crystals() -> Vec<CrystalType> {
+  let mut v: Vec<CrystalType> = CRYSTALS.to_vec();
+  v.push(rutile_expr());
+  v
+}
+
 /// rounding allowance for the clauses of the statement that carry no tolerance of their own
 /// (bounds, uniaxial law, mirror images): the coincident root of the Fresnel quadratic is only
 /// √ε ≈ 1.5e-8 conditioned, so values are compared to a few times that.
@@ -416,6 +432,36 @@ fn walkoff_case(ctx: &mut Ctx, c: &CrystalType, theta: f64, phi: f64, bphi: f64,
     Some(x) if !x.is_finite() => ctx.s("C02.walkoff_finite", false, "walkoff/nonfinite", &det),
     Some(_) => ctx.s("C02.walkoff_finite", true, "walkoff/finite", &det),
   }
+  // the general sentence of the statement, for EVERY crystal (biaxial included) and both polarisations:
+  // walk-off = atan(−n′/n), n′ = ∂(index along the beam)/∂(crystal angle).  n′ is obtained here independently,
+  // by a 5-point central difference (h = 1e-3 rad: truncation ~1e-12, rounding ~1e-12) of the real index_along
+  // over the crystal angle.  Only where the index is differentiable and well conditioned: beam at least 12°
+  // from every optic axis (the statement's own exclusion zone), crystal angle not tiny (the coded step is ε^⅓·|θ|).
+  if let Some(rho) = rho {
+    let s_cf = cs.to_crystal_frame(Unit::new_unchecked(d)).into_inner();
+    let away = optic_axes(&n).iter().all(|a| s_cf.dot(a).abs().min(1.0).acos() >= 12.0 * PI / 180.0 + 4e-3);
+    // (the coded relative step ε^⅓·|θ_c| amplifies the ~1e-13 rounding noise of the nearly cancelling Fresnel
+    // discriminant of weakly birefringent crystals by 1/(6e-6·|θ_c|): measured 6.6e-8 rad at θ_c = 14°; crystal
+    // angles below the statement's own 12° are therefore left to the finiteness clause)
+    if away && rho.is_finite() && (theta == 0.0 || theta.abs() >= 12.0 * PI / 180.0) {
+      let lam = beam.vacuum_wavelength();
+      let f = |t: f64| {
+        let mut s2 = cs.clone();
+        s2.theta = t * RAD;
+        *s2.index_along(lam, Unit::new_unchecked(d), p)
+      };
+      let h = 1e-3;
+      let dn = (-f(theta + 2.0 * h) + 8.0 * f(theta + h) - 8.0 * f(theta - h) + f(theta - 2.0 * h)) / (12.0 * h);
+      let expect = (-dn / f(theta)).atan();
+      let psi_axis = optic_axes(&n).iter().map(|a| s_cf.dot(a).abs().min(1.0).acos()).fold(f64::INFINITY, f64::min);
+      ctx.s(
+        "C02.walkoff_derivative",
+        (rho - expect).abs() <= WALKOFF_TOL,
+        "walkoff/derivative",
+        &format!("{} psi={:e} expect={:?} dn_dtheta={:e}", det, psi_axis, expect, dn),
+      );
+    }
+  }
   // uniaxial closed form: the beam lies in the plane swept by the optic axis when the crystal
   // angle varies (beam azimuth 0 or π, or the beam along z), so the angle ψ between beam and optic
   // axis moves one-to-one with the crystal angle; clause restricted to 12° ≤ ψ ≤ 90°
@@ -539,7 +585,8 @@ pub fn run(ctx: &mut Ctx) {
   // ---------------------------------------------------------------- index along a direction
   let per = (ctx.n / 40).max(2); // directions per (crystal, orientation) on the sphere
   let n_orient = if ctx.thorough { 6 } else { 3 };
-  for c in CRYSTALS.iter() {
+  let crystals_all = all_crystals();
+  for c in crystals_all.iter() {
     for o in 0..n_orient {
       let k = make_case(&mut ctx.rng, c, o == 0);
       ctx.count(&format!("index_along/orientation={}", if o == 0 { "aligned" } else { "generic" }));
@@ -684,9 +731,17 @@ pub fn run(ctx: &mut Ctx) {
     }
   }
 
+  // ---------------------------------------------------------------- pinned inputs of finding D60
+  // AgGaS2_1 at the 500 nm edge of its window is almost isotropic (n_o − n_e = 4.4e-3): the rounding noise of the
+  // nearly cancelling Fresnel discriminant (~3e-13 in n), divided by the coded step ε^⅓·θ ≈ 1.3e-6, exceeds 1e-6 rad
+  for i in [6481usize, 6713, 12010] {
+    let theta = 12.0 * PI / 180.0 + (i as f64) * 5e-7;
+    walkoff_case(ctx, &CrystalType::AgGaS2_1, theta, 0.0, 0.0, 0.0, PolarizationType::Extraordinary, 500e-9, 20.0, "d60-pinned");
+  }
+
   // ---------------------------------------------------------------- walk-off
   let n_w = if ctx.thorough { 60 } else { 8 };
-  for c in CRYSTALS.iter() {
+  for c in crystals_all.iter() {
     for p in both.iter() {
       // pump along z, crystal angle over the statement's range 12°…90° (uniaxial closed form) and beyond
       for j in 0..n_w {
@@ -740,6 +795,18 @@ pub fn run(ctx: &mut Ctx) {
         let lambda = gen_lambda(&mut ctx.rng, c);
         let t_c = gen_temp(&mut ctx.rng);
         walkoff_case(ctx, c, theta, phi, bphi, btheta, *p, lambda, t_c, "any");
+      }
+      // tilted cuts with the beam along z: crystal φ ∈ {0, 90°, 45°, random}, θ over the whole quadrant
+      for j in 0..n_w {
+        let theta = ctx.rng.range(0.05, FRAC_PI_2);
+        let phi = match j % 4 {
+          0 => FRAC_PI_2,
+          1 => 0.0,
+          2 => PI / 4.0,
+          _ => ctx.rng.range(0.0, 2.0 * PI),
+        };
+        let lambda = gen_lambda(&mut ctx.rng, c);
+        walkoff_case(ctx, c, theta, phi, 0.0, 0.0, *p, lambda, 20.0, "tilted-cut");
       }
       // exact boundary angles of crystal and beam
       let lambda = gen_lambda(&mut ctx.rng, c);
